@@ -34,14 +34,14 @@ CHECKS.update({
     "C05": dict(
         engine="LLSym + PySym",
         technique="LLSym symbolic run of the real DP on trio shapes in trusted-genotype mode; z3 decides: child alleles come from the respective parent's genotype, the transmission value selects the parental haplotype under one fixed labelling, read-less columns with a homozygous parent are phased; sub-check ped_parts: LLSym run of Pedigree + PedigreePartitions alone, all transmission values and every order of addRelationship calls - each child's partitions follow the two bits of the k-th added relationship (the decoding phase.py and --recombination-list use); sub-checks ped_filter / ped_genetic (PySym/z3): find_phaseable_variants resp. run_whatshap itself under stubs (reader, read input, solver contract stub, recording writer) on solver-chosen trio genotypes and read sets: conflict / missing-genotype variants never reach the solver, child-heterozygous variants with a homozygous parent reach solver and writer with or without reads",
-        text="Bounded: 2-3 column trios with up to 2-3 reads, all alleles/weights/recombination costs symbolic; ped_parts: trio, quartet (both orders), child listed before its parents (thorough: two trios, three generations, three children); ped_genetic: trio, 1-3 (4) variants, all genotype rows for <= 2 variants, 8 representative rows beyond, 27 read patterns; a second unrelated trio in the same run (1-2 variants, representative rows for both families).",
+        text="Bounded: 2-3 column trios with up to 2-3 reads, all alleles/weights/recombination costs symbolic; ped_parts: trio, quartet (both orders), child listed before its parents (thorough: two trios, three generations, three children); ped_genetic: trio, 1-3 (4) variants, all genotype rows for <= 2 variants, 8 representative rows beyond, 27 read patterns; a second unrelated trio in the same run (1-2 variants, representative rows for both families); sub-check run (checks/phase_run.py, pedigree shapes): trio without reads through the REAL VcfReader and PhasedVcfWriter, two records sharing a position in every kind combination (snv / indel / multi-ALT), --only-snvs, both tags: the first usable record of every position comes out phased for the child.",
         note="As C01. The labelling convention of the transmission bits is not spelled out by the statement; the weaker reading (one fixed convention for all inputs) is asserted. Conflict/missing-genotype filtering (Python) is claimed by sub-check ped_filter when present.",
         design_ref="DESIGN.md §4 C05",
     ),
     "C20": dict(
         engine="PySym",
         technique="bounded symbolic execution (PySym/z3) of whatshap.cli.phase.run_whatshap with the environment stubbed (VCF reader/writer, read input, exact solver as contract stub, in-memory files); every path replayed on the real module with real files",
-        text="All three list files are checked against what each (chromosome, family) step produced, for 1-2 chromosomes x {single, trio, trio + unrelated sample} x distrust on/off with solver-chosen read patterns (including a phase set nested inside the family's block, 5 variants), transmission vectors and genotype changes; the phase set of every listed read is compared with the component the VCF writer is handed for the read's first variant (first variant on the first base of the contig included). Sub-check run: the changed-genotype list against the REAL writer: listed changes == GT differences between input and output document (incl. changes to homozygous), none without --distrust-genotypes.",
+        text="All three list files are checked against what each (chromosome, family) step produced, for 1-2 chromosomes x {single, trio, trio + unrelated sample} x distrust on/off with solver-chosen read patterns (including a phase set nested inside the family's block, 5 variants), transmission vectors and genotype changes; the phase set of every listed read is compared with the component the VCF writer is handed for the read's first variant (first variant on the first base of the contig included). Sub-check run: the changed-genotype list against the REAL writer: listed changes == GT differences between input and output document (incl. changes to homozygous), none without --distrust-genotypes. aux quartet shape (children listed in different orders in VCF and PED): each recombination line names the child whose relationship bits of the transmission value changed.",
         note="Trusted: the stubs listed in the evidence (they stand for C01/C04); PySym proxies. Outside: real BAM/VCF I/O, more than 2 chromosomes / 2 families (the defect class is per-step file handling).",
         design_ref="DESIGN.md §4 C20",
     ),
@@ -100,7 +100,7 @@ CHECKS.update({
     "C16": dict(
         engine="PySym",
         technique="the hash seed as a symbolic variable: inside the repo modules set/frozenset iteration over hash-randomised elements yields a solver-chosen permutation (PySym/z3); run_compare, run_polyphase, run_whatshap (phase), run_genotype, run_haplotag, run_stats, run_unphase and run_split are executed under stubs twice (canonical order / solver's order; one permutation per distinct set content, as one process has one seed) and everything they write must be identical; a difference is confirmed by running the real CLI under several PYTHONHASHSEED values; sub-check repeat: the pre-state of the file system is symbolic - per output path of stats / phase (three lists) / learn the solver chooses whether a file of an earlier run is already there, and the outputs must equal those of a run on an empty file system (replay: real CLI into a fresh and into a pre-populated directory); sub-check polyphase_threads: the data flow of the worker branch of solve_polyphase_instance (jobs sorted by size, results put back by block id) under a synchronous pool stand-in equals the sequential branch for solver-chosen block layouts and block results",
-        text="compare: 2-3 single-sample VCFs, all naming patterns, --ignore-sample-name, all four output files + stdout; polyphase: 2-3 samples with solver-chosen het sets; phase: trio / quartet / trio+single / two trios x 1-2 chromosomes x --use-ped-samples x --distrust-genotypes, VCF and all three lists; genotype: same families, --no-priors, --prioroutput; haplotag: two samples sharing barcodes / read names, --sample subsets; stats (plain and tabix-indexed input, --chromosome), unphase, split: one pass each. polyphase --threads: only the data flow of the worker branch is claimed (polyphase_threads); worker scheduling and htslib compression threads are NOT claimed: no interleaving of OS processes/threads is visible to a symbolic executor of the source.",
+        text="compare: 2-3 single-sample VCFs, all naming patterns, --ignore-sample-name, all four output files + stdout; polyphase: 2-3 samples with solver-chosen het sets; phase: trio / quartet / trio+single / two trios x 1-2 chromosomes x --use-ped-samples x --distrust-genotypes, VCF and all three lists; genotype: same families, --no-priors, --prioroutput; haplotag: two samples sharing barcodes / read names, --sample subsets; polyphase also with the REAL phase_single_individual under --use-prephasing (one sample pre-phased, the others not); stats (plain and tabix-indexed input, --chromosome), unphase, split: one pass each. polyphase --threads: only the data flow of the worker branch is claimed (polyphase_threads); worker scheduling and htslib compression threads are NOT claimed: no interleaving of OS processes/threads is visible to a symbolic executor of the source.",
         note="Trusted: nondet set shim (over-approximates hash orders; reports need a real reproduction under two PYTHONHASHSEED values), the stubs listed in the evidence (the solver contract stubs assume independence from the order of add_individual calls). Three hash-seed defects were found and repaired in /repo (compare multiway sample column, PedReader.samples(), haplotag sample loop). haplotagphase is not encoded for hash-seed independence (it builds no set); learn is covered for repetition only (its compiled Caller is a model that appends to the output path in the mode src/caller.cpp uses).",
         design_ref="DESIGN.md §4 C16, §9",
     ),
